@@ -141,7 +141,11 @@ def run_bb(ctx, p):
     s = ctx.quiet(C.build_bbnoh, cls, p["kw"])
     t = 0.7
     u0 = abs(p["kw"]["ic"]["velocity"])
-    fs = front_and_states(ctx, s, t, 1e-4 * t, lambda tt: 1e-4 * u0 * tt, lambda tt: 50 * u0 * tt, p_label)
+    p0 = float(p["kw"]["ic"]["pressure"])
+
+    def shocked(sol):            # behind the shock the pressure is above the initial one (which is > 0 for some planar cases)
+        return bool(float(sol["pressure"][0]) > p0 * (1.0 + 1e-9))
+    fs = front_and_states(ctx, s, t, 1e-4 * t, lambda tt: 1e-4 * u0 * tt, lambda tt: 50 * u0 * tt, shocked)
     if fs is None:
         raise Skip("front_not_bracketed")
     jumps(ctx, cls.__name__, "g=%d %s" % (geom, p["kw"]["eos"]), fs["L"], fs["R"], fs["D"], 1e-6,
